@@ -322,6 +322,7 @@ class Store:
         self.violations = []      # write-once monitor findings: (step, verb, path, why)
         self.mode = 'pre'         # nodes created while mode == 'pre' are pre-existing
         self.time = 0
+        self.writers = {}
         self.scheduler = None     # set by the race harness: decides who performs the next storage step
 
     # -- direct manipulation by harnesses
@@ -410,6 +411,8 @@ class Store:
                 # archive files are write-once: replacing a non-empty file is a violation whoever wrote it
                 self.violations.append((self.nsteps - 1, 'write', path, 'existing file overwritten'))
         self.nodes[path] = Node('file', payload, born='run' if self.mode != 'pre' else 'pre')
+        if self.mode != 'pre':
+            self.writers.setdefault(path, []).append(self.actor)     # who wrote what (racing-backups oracle of C07)
         return ok(UNIT)
 
     def op_create_dir(self, path):
